@@ -57,6 +57,10 @@ namespace net
         check_dl(IDL);
       if (rdl && !stop)
         check_dl(RDL);
+      if (idl && !stop)
+        check_dl_tree(IDL);
+      if (rdl && !stop)
+        check_dl_tree(RDL);
       if (ov && !stop)
         check_ov();
       if (lra && !stop)
@@ -439,6 +443,59 @@ namespace net
     for (int i = 0; i < n; ++i)
       if (cmp(d[i][i], Qx(0)) < 0)
         neg_cycle = true;
+  }
+
+  // N9 (white box; the engine is compiled with -fno-access-control). The theories explain a distance by walking their
+  // predecessor matrix from the target back to the source and collecting, for every hop, the literal of the constraint
+  // registered as enforced on that edge. That is only right if, for every finite distance d(i,j), the walk ends (at i,
+  // within n hops) and every hop p -> c is an enforced constraint (its literal assigned in the enforcing polarity) whose
+  // weight w satisfies d(i,c) = d(i,p) + w. Backtracking has to restore exactly this, whatever was tightened and undone.
+  template <typename TH, typename NUM, typename ISINF>
+  static std::string dl_tree(const TH &t, size_t n, smt::sat_core &sat, ISINF is_inf, const NUM &delta)
+  {
+    for (size_t i = 0; i < n; ++i)
+      for (size_t j = 0; j < n; ++j)
+      {
+        if (i == j || is_inf(t._dists[i][j]))
+          continue;
+        size_t c = j, hops = 0;
+        while (c != i)
+        {
+          const size_t p = t._preds[i][c];
+          if (p >= n || ++hops > n)
+            return "the predecessor walk for d(" + std::to_string(i) + "," + std::to_string(j) + ") does not reach the source (at node " + std::to_string(c) + ")";
+          auto it = t.dist_constr.find({p, c});
+          if (it == t.dist_constr.end())
+            return "hop " + std::to_string(p) + "->" + std::to_string(c) + " of the path for d(" + std::to_string(i) + "," + std::to_string(j) + ") has no enforced constraint";
+          const auto *k = it->second;
+          NUM w;
+          if (k->from == p && k->to == c && sat.value(k->b) == smt::True)
+            w = k->dist;
+          else if (k->from == c && k->to == p && sat.value(k->b) == smt::False)
+            w = -k->dist - delta;
+          else
+            return "hop " + std::to_string(p) + "->" + std::to_string(c) + " of the path for d(" + std::to_string(i) + "," + std::to_string(j) + ") points to a constraint (" + to_string(k->b) + ") that is not enforced in that direction now";
+          const NUM dp = p == i ? NUM(0) : t._dists[i][p];
+          if (!(dp + w == t._dists[i][c]))
+            return "d(" + std::to_string(i) + "," + std::to_string(c) + ") is not d(" + std::to_string(i) + "," + std::to_string(p) + ") plus the weight of the constraint enforced on " + std::to_string(p) + "->" + std::to_string(c);
+          c = p;
+        }
+      }
+    return "";
+  }
+
+  void Run::check_dl_tree(int th)
+  {
+    if (!(enabled & O_N9_DL))
+      return;
+    std::string r;
+    if (th == IDL)
+      r = dl_tree<smt::idl_theory, smt::I>(*idl, idl->size(), *sat, [](const smt::I &x) { return x >= smt::idl_theory::inf(); }, smt::I(1));
+    else
+      r = dl_tree<smt::rdl_theory, smt::inf_rational>(*rdl, rdl->size(), *sat, [](const smt::inf_rational &x) { return is_positive_infinite(x); }, smt::inf_rational(smt::rational::ZERO, smt::rational::ONE));
+    cnt.inc("dl_tree_checks");
+    if (!r.empty())
+      viol(O_N9_DL, "N9", std::string("N9.") + (th == IDL ? "idl" : "rdl") + ".path_tree", r + " (level " + std::to_string(sat->decision_level()) + ")");
   }
 
   void Run::check_dl(int th)
